@@ -302,6 +302,19 @@ func genLDS(rt *rapid.T, kind int) []byte {
 	case kDG1:
 		return tl(0x61, tl(0x5F1F, val("mrz", []byte(sampleMRZ))), sub())
 	case kDG11:
+		if rapid.IntRange(0, 2).Draw(rt, "dg11-layout") == 0 {
+			// other names directly under 6B (no A0 template, no count object), 0..4 of them, possibly
+			// empty or filler-only; the tag list may or may not announce them
+			tags := [][]byte{{0x5F, 0x0E, 0x5F, 0x0F}, {0x5F, 0x0F}, {0x5F, 0x0E, 0xA0}, {0x5F, 0x0F, 0x5F, 0x0F}, {}}[rapid.IntRange(0, 4).Draw(rt, "dg11-tags")]
+			parts := [][]byte{tl(0x5C, tags)}
+			if rapid.Bool().Draw(rt, "dg11-name") {
+				parts = append(parts, tl(0x5F0E, val("nm", []byte("SMITH<<JOHN"))))
+			}
+			for i, n := 0, rapid.IntRange(0, 4).Draw(rt, "dg11-others"); i < n; i++ {
+				parts = append(parts, tl(0x5F0F, rapid.SampledFrom([][]byte{nil, {}, []byte("<"), []byte("<<<<"), []byte("A<<B"), []byte(" "), {0x00}}).Draw(rt, "dg11-on")))
+			}
+			return tl(0x6B, parts...)
+		}
 		return tl(0x6B, tl(0x5C, val("tl", []byte{0x5F, 0x0E, 0x5F, 0x0F, 0xA0, 0x5F, 0x2B, 0x5F, 0x11, 0x5F, 0x42})), tl(0x5F0E, val("nm", []byte("SMITH<<JOHN"))),
 			tl(0xA0, tl(0x02, val("cnt", []byte{2})), tl(0x5F0F, val("on", []byte("A<<B"))), sub()), tl(0x5F2B, val("dob", []byte{0x19, 0x70, 0x01, 0x01})), sub())
 	case kDG12:
